@@ -4,8 +4,12 @@
 // and probe task hooks, and records everything observable in one global order.
 // Shared by the C01, C08, C09 and C10 harnesses.
 //
-// Input (S-expression):  (hooks reqs nTasks)
+// Input (S-expression):  (hooks reqs nTasks)  |  (hooks reqs nTasks uvars)
 //
+//	uvars := ((key value) …)   user-supplied workflow variables, set as user variables of the workflow's root
+//	        role before the first request (what `env.GetKV("", key)` and every role's variable stack see). The
+//	        model takes no variable of this kind into account: whatever the code makes of one shows as a
+//	        disagreement. Inputs without the field run exactly as before.
 //	hook := (id call|task crit trigName trigW awaitName awaitW (o0 o1 …))     oK=1 ⇒ K-th execution fails
 //	      | (id call|task crit trigName trigW awaitName awaitW (o0 o1 …) timeoutMs durMs)
 //	        timeoutMs > 0: the call hook's own `timeout` trait in ms (default 5s; task hooks always 5s);
@@ -15,6 +19,10 @@
 //	        oK may also NAME THE WAY the K-th execution of a call hook fails (an atom other than 0 / 1; 1 = the
 //	        plugin writes __call_error, the only way there was before): see ways.go. Hooks without such an
 //	        atom run exactly as before.
+//	        trigW / awaitW may also be (w TEXT): the weight AS WRITTEN in the template — TEXT is appended to the
+//	        trigger / await name verbatim ("+010", "-007", "+0", "-0", "" = no weight at all, …), so that the
+//	        core's own callable.ParseTriggerExpression reads it; the model reads the same text with the documented
+//	        decimal reading (Model/TrigExpr.lean). A plain integer is written as %+d, as ever.
 //	req  := (T ev bodyOk rnFail) | (C ev bodyOk rnFail) | (D force relOk1 relOk2)
 //	      | (TR ev bodyOk rnFail) | (CR ev bodyOk rnFail)
 //	        like T / C, but the task-level body is the REAL one of core/environment/transition_*.go
@@ -30,6 +38,11 @@
 //	        body. The model is the same for T and TR, C and CR. A real CONFIGURE asks nobody when the
 //	        workflow has no active task, so TR/CR CONFIGURE need nTasks ≥ 1 (otherwise the case is
 //	        reported as an infrastructure error, i.e. inconclusive).
+//	      | (P q1 q2) | (P q1 q2 holdMs)
+//	        q2 is issued by a second caller while q1 is parked inside its critical section (at its first gate
+//	        point: scripted body, command of a real body held unanswered by the fake task manager, first release
+//	        round). holdMs > 0: the gate stays closed for at least holdMs more after the first sighting of q2 —
+//	        the task phase of q1 lasts that long — and a second sighting is recorded (OW) before it opens.
 //
 // Trace (S-expression list), in global sequence order:
 //
@@ -46,6 +59,14 @@
 //	                               st0, st1 = the state reported before q2 was issued and after that sighting
 //	                               (both while q1 still holds the mutex). A q2 that returned has its R record
 //	                               right after this one, i.e. BEFORE q1's.
+//	(OW first second st)           pair (P q1 q2 holdMs): the second sighting, holdMs after the first, the gate of q1
+//	                               still closed (its task-level command still unanswered): first = inside | returned
+//	                               (q1 has / has not returned to its caller), second = queued | returned | inside
+//	                               (q2 got into its critical section: it reached its first published event) |
+//	                               elsewhere, st = the state reported now. A request that returned by now has its R
+//	                               record right after this one.
+//	(BO ev n)                      the command of a real body of ev reached the fake task manager while n earlier
+//	                               commands of this environment were still unanswered (two task phases at a time)
 //	(Q n)                          end of the case, after every probe call has returned: n goroutines of
 //	                               callable.(*Call).Start hold a result that was neither collected (Await) nor
 //	                               cancelled (teardown) — counted before the harness's own clean-up teardown
@@ -130,6 +151,8 @@ type hookDef struct {
 	dur      int // ms the probe takes, 0 = default
 	ways     []string // per execution: "" = the plugin writes __call_error (outcome atoms 0 / 1), else the named way (ways.go)
 	hasWays  bool     // some execution fails in a named way: the hook goes through waysStack
+	twText   *string  // the trigger weight as written, when the input gives it as (w TEXT)
+	awText   *string  // the await weight as written
 }
 
 type caseState struct {
@@ -143,6 +166,7 @@ type caseState struct {
 	gate    atomic.Pointer[gateT] // overlapping requests: where the first one is parked inside its critical section
 	badWay  atomic.Pointer[string] // ways.go: an execution the input does not script consistently (infrastructure error)
 	hold    atomic.Pointer[holdT] // overlapping requests: the second one is parked at its first published event
+	inflight atomic.Int32 // commands of real bodies that reached the fake task manager and are not answered yet
 }
 
 // bodyScript: how the fake task manager answers the command round trip of a real transition body.
@@ -193,8 +217,9 @@ func (cs *caseState) hitGate() {
 // holdT parks goroutine gid at the first event it publishes (the first thing TryTransition and
 // TeardownEnvironment do with the mutex held, before they change anything).
 type holdT struct {
-	gid int64
-	ch  chan struct{}
+	gid     int64
+	ch      chan struct{}
+	reached atomic.Bool // gid got as far as its first published event (it is inside its critical section)
 }
 
 func goid() int64 {
@@ -232,6 +257,7 @@ func (w *capWriter) WriteEventWithTimestamp(e interface{}, ts time.Time) {
 		return
 	}
 	if h := cs.hold.Load(); h != nil && goid() == h.gid {
+		h.reached.Store(true)
 		<-h.ch
 	}
 	switch ev := e.(type) {
@@ -368,14 +394,36 @@ func Setup(work string) error {
 					// manager does, with a TasksStateChangedEvent that the environment manager's event loop
 					// hands to the environment's stateChangedCh, where the body waits
 					var terr error
-					if cs := cur.Load(); cs != nil {
-						rec.add(sx.L(sx.A("B"), sx.A(commandEvent(m))))
-						cs.hitGate()
-						if b := cs.body.Swap(nil); b != nil && !b.ok {
-							terr = fmt.Errorf("scripted body failed: tasks did not reach %s", m.GetDestination())
-						}
+					cs := cur.Load()
+					if cs == nil {
+						evCh <- event.NewTasksStateChangedEvent(m.GetEnvironmentId(), m.GetTasks().GetTaskIds(), terr)
+						continue
 					}
-					evCh <- event.NewTasksStateChangedEvent(m.GetEnvironmentId(), m.GetTasks().GetTaskIds(), terr)
+					// the task phase of the transition begins: commands in flight are counted, a command that
+					// arrives while an earlier one is unanswered is an observation of its own
+					n := cs.inflight.Add(1)
+					rec.add(sx.L(sx.A("B"), sx.A(commandEvent(m))))
+					if n > 1 {
+						rec.add(sx.L(sx.A("BO"), sx.A(commandEvent(m)), sx.I(int(n-1))))
+					}
+					if b := cs.body.Swap(nil); b != nil && !b.ok {
+						terr = fmt.Errorf("scripted body failed: tasks did not reach %s", m.GetDestination())
+					}
+					answer := func(m *task.TaskmanMessage, terr error) {
+						evCh <- event.NewTasksStateChangedEvent(m.GetEnvironmentId(), m.GetTasks().GetTaskIds(), terr)
+						cs.inflight.Add(-1)
+					}
+					if g := cs.gate.Load(); g != nil && g.armed.CompareAndSwap(true, false) {
+						// overlapping pair: the answer is HELD (the tasks are slow) until the gate opens; the fake
+						// task manager goes on serving, so that whatever else reaches it meanwhile is seen
+						close(g.reached)
+						go func(m *task.TaskmanMessage, terr error) {
+							<-g.release
+							answer(m, terr)
+						}(m, terr)
+						continue
+					}
+					answer(m, terr)
 					continue
 				}
 				if m.GetMessageType() != taskop.ReleaseTasks {
@@ -437,6 +485,12 @@ func buildYAML(hooks []*hookDef, nTasks int) string {
 				fmt.Fprintf(&b, "      func: %s\n      timeout: 5s\n", h.funcExpr())
 			}
 		}
+		if h.twText != nil || h.awText != nil {
+			// weights as written: the expressions go into the YAML as double-quoted scalars, verbatim
+			fmt.Fprintf(&b, "      trigger: %s\n      await: %s\n      critical: %v\n", yamlQuote(writtenExpr(h.trig, h.tw, h.twText)),
+				yamlQuote(writtenExpr(h.await, h.aw, h.awText)), h.crit)
+			continue
+		}
 		fmt.Fprintf(&b, "      trigger: %s%+d\n      await: %s%+d\n      critical: %v\n", h.trig, h.tw, h.await, h.aw, h.crit)
 	}
 	if nTasks == 0 && len(hooks) == 0 {
@@ -446,13 +500,52 @@ func buildYAML(hooks []*hookDef, nTasks int) string {
 	return b.String()
 }
 
+// writtenExpr: a trigger / await expression with its weight as written (text), or as %+d.
+func writtenExpr(name string, w int, text *string) string {
+	if text != nil {
+		return name + *text
+	}
+	return fmt.Sprintf("%s%+d", name, w)
+}
+
+func yamlQuote(s string) string {
+	var b strings.Builder
+	b.WriteByte('"')
+	for _, c := range s {
+		switch c {
+		case '"', '\\':
+			b.WriteByte('\\')
+			b.WriteRune(c)
+		case '\t':
+			b.WriteString("\\t")
+		case '\n':
+			b.WriteString("\\n")
+		default:
+			b.WriteRune(c)
+		}
+	}
+	b.WriteByte('"')
+	return b.String()
+}
+
+// weightField reads a trigW / awaitW field: an integer, or (w TEXT).
+func weightField(n *sx.Node) (int, *string) {
+	if n != nil && n.IsList && n.Len() == 2 && n.At(0).Str() == "w" {
+		t := n.At(1).Str()
+		return 0, &t
+	}
+	return n.Int(), nil
+}
+
 var cls = &taskclass.Class{Identifier: taskclass.Id{RepoIdentifier: "verif", Hash: "0", Name: "cls"}}
 
 func parseHooks(n *sx.Node) []*hookDef {
 	var out []*hookDef
 	for _, h := range n.List {
 		d := &hookDef{id: h.At(0).Int(), isTask: h.At(1).Str() == "task", crit: h.At(2).Bool(),
-			trig: h.At(3).Str(), tw: h.At(4).Int(), await: h.At(5).Str(), aw: h.At(6).Int()}
+			trig: h.At(3).Str(), await: h.At(5).Str()}
+		d.tw, d.twText = weightField(h.At(4))
+		d.aw, d.awText = weightField(h.At(6))
 		for _, o := range h.At(7).List {
 			if w := o.Str(); !o.IsList && w != "0" && w != "1" && w != "true" && w != "false" && w != "" {
 				// the K-th execution fails in the named way
@@ -621,6 +714,12 @@ func Run(input string, paced bool) (string, error) {
 	for _, h := range hooks {
 		cs.hooks[fmt.Sprintf("root.h%d", h.id)] = h
 	}
+	if in.Len() >= 4 {
+		// user-supplied workflow variables
+		for _, kv := range in.At(3).List {
+			root.GetUserVars().Set(kv.At(0).Str(), kv.At(1).Str())
+		}
+	}
 	env.SetWorkflowForVerif(root)
 	cs.env = env
 	if hasRealBody(in.At(1)) {
@@ -696,11 +795,13 @@ func Run(input string, paced bool) (string, error) {
 				infraErr = fmt.Errorf("infrastructure: the real CONFIGURE body sends no command without active tasks (TR/CR CONFIGURE need nTasks >= 1)")
 				return infraErr
 			}
-			defer cs.body.Store(nil)
+			var mine *bodyScript
+			defer func() { cs.body.CompareAndSwap(mine, nil) }() // not the script of an overlapping request issued meanwhile
 			mk := func() environment.Transition {
 				if realCtor != nil {
 					// the REAL body; only the task manager's answer is scripted
-					cs.body.Store(&bodyScript{ev: evName, ok: bodyOk})
+					mine = &bodyScript{ev: evName, ok: bodyOk}
+					cs.body.Store(mine)
 					return realCtor(taskman)
 				}
 				return environment.NewScriptedTransition(evName, taskman, func(e *environment.Environment) error {
@@ -861,21 +962,91 @@ func Run(input string, paced bool) (string, error) {
 		if bFinished {
 			record(bErr)
 		}
+		holdOpen := false
+		openHold := func() {
+			if !holdOpen {
+				holdOpen = true
+				close(h.ch)
+			}
+		}
+		aReturned := false // q1 returned while its gate was still closed
+		if holdMs := q.At(3).Int(); q.Len() >= 4 && holdMs > 0 {
+			// (P q1 q2 holdMs): the task phase of q1 is SLOW — its gate stays closed for holdMs more — and the
+			// second sighting says what the two callers are doing by then: on a tree that serialises requests q1
+			// is still in there (the command it sent is unanswered, it cannot have returned) and q2 still queues.
+			time.Sleep(time.Duration(holdMs) * time.Millisecond)
+			first, second := "inside", "returned"
+			select {
+			case aErr = <-aDone:
+				aReturned, first = true, "returned"
+			default:
+			}
+			bNow := false
+			if !bFinished {
+				select {
+				case bErr = <-bDone:
+					bFinished, bNow = true, true
+				default:
+				}
+			}
+			if !bFinished {
+				if h.reached.Load() {
+					second = "inside"
+				} else {
+					fin, onM, werr := waitParked(h.gid, bDone, &bErr)
+					switch {
+					case werr != nil:
+						close(g.release)
+						openHold()
+						return "", werr
+					case fin:
+						bFinished, bNow = true, true
+					case onM:
+						second = "queued"
+					case h.reached.Load():
+						second = "inside"
+					default:
+						second = "elsewhere"
+					}
+				}
+			}
+			rec.add(sx.L(sx.A("OW"), sx.A(first), sx.A(second), sx.A(env.CurrentState())))
+			if aReturned {
+				record(aErr)
+			}
+			if bNow {
+				record(bErr)
+			}
+			if second == "inside" {
+				// q2 is being carried out while the command of q1 is unanswered (never on a tree that serialises):
+				// it is let go on for a while, so that what it does meanwhile — a second command in flight, an
+				// answer taken by the wrong transition — is on the trace, before the tasks answer q1
+				openHold()
+				select {
+				case bErr = <-bDone:
+					bFinished = true
+					record(bErr)
+				case <-time.After(time.Duration(max(holdMs, 50)) * time.Millisecond):
+				}
+			}
+		}
 		close(g.release)
 		cs.gate.Store(nil)
-		select {
-		case aErr = <-aDone:
-		case <-time.After(60 * time.Second):
-			close(h.ch)
-			return "", fmt.Errorf("infrastructure: first request of an overlapping pair did not return within 60s of its release")
+		if !aReturned {
+			select {
+			case aErr = <-aDone:
+			case <-time.After(60 * time.Second):
+				openHold()
+				return "", fmt.Errorf("infrastructure: first request of an overlapping pair did not return within 60s of its release")
+			}
+			if err := settle(q1); err != nil {
+				openHold()
+				return "", err
+			}
+			scriptFor(q2)
+			record(aErr) // q2 is parked at its first event (mutex held, nothing changed yet), or has not got the mutex yet
 		}
-		if err := settle(q1); err != nil {
-			close(h.ch)
-			return "", err
-		}
-		scriptFor(q2)
-		record(aErr) // q2 is parked at its first event (mutex held, nothing changed yet), or has not got the mutex yet
-		close(h.ch)
+		openHold()
 		cs.hold.Store(nil)
 		if !bFinished {
 			select {
